@@ -271,7 +271,7 @@ func (r *Run) evidence(res Result, extra map[string]interface{}, wall float64, s
 	perRule := map[string]int{}
 	var samples []Obligation
 	for _, o := range r.obls {
-		if perRule[o.Rule] < 3 {
+		if perRule[o.Rule] < 8 {
 			perRule[o.Rule]++
 			samples = append(samples, o)
 		}
